@@ -248,3 +248,6 @@ func PEMLen(n int) {}
 func PEMOf(der []byte) []byte {
 	return pem.EncodeToMemory(&pem.Block{Type: "CERTIFICATE", Bytes: der})
 }
+
+// EnableFaults lets the harness signer fail (the fault bit "fault.sign.<name>" becomes symbolic).
+func EnableFaults() {}
